@@ -190,6 +190,8 @@ def make(pid, fams):
         if pid == "C06":
             dd_model_conformance(chk, w, tier)
             dd_model_conformance(chk, w, tier, module="DDPooled", cfg="MC_DDPooled_emit.cfg", insts_file="mc_pooled_insts.json", force_cut="pooled", tagname="ddpooled_model")
+            # pooled.rs on the models WITHOUT long arcs (its own relaxation guard, pool and threshold code): same instances as DD.tla
+            dd_model_conformance(chk, w, tier, module="DDPooled", cfg="MC_DDPooled_emit.cfg", insts_file="mc_dd_insts.json", force_cut="pooled", tagname="ddpooled_allimpacted")
         dd_runs(chk, w, tier, fams)
         evs = read_ndjson(os.path.join(w, f"dd_{fams[0]}_0.ndjson"))
         k = next(i for i, e in enumerate(evs) if e["ev"] == "compiled" and e.get("ok") and not e["exact"])
